@@ -153,13 +153,17 @@ CLAIMED["C10"] = dict(
     technique="Kani/CBMC bounded model checking (SAT) with nondeterministic grid stubs",
     design="4 (C10)")
 CLAIMED["C13"] = dict(
-    text="Bounded model checking, narrow: the noop kernel (all aliases share it) returns every tuple bit-identical "
-         "in both directions and counts all of them.",
-    note=TRUST + "Everything else in C13 relates constructors that precompute constants through libm from "
-         "definition text (utm vs tmerc, lat_ts vs k_0, one- vs two-parallel lcc, x_0/y_0/lon_0 handling inside "
-         "libm-heavy kernels) and is outside what CBMC can decide here; this check therefore claims only the noop "
-         "sentence of the property.",
-    technique="Kani/CBMC bounded model checking (SAT)",
+    text="Bounded model checking of apply-time parameter conventions as relations between two runs of the compiled "
+         "merc kernel with uninterpreted-but-consistent libm: x_0,y_0 are added to the forward result and removed by "
+         "the inverse, lon_0 given in degrees is equivalent to subtracting it (in radians) from the input longitude, "
+         "height and time are bit-identical; the noop kernel (shared by all aliases) returns every tuple untouched "
+         "and counts it.",
+    note=TRUST + "M-BTREE; S-ACC for the indexed accessors k/x/y/lat/lon and ellps (values also written to the "
+         "real map); S-UF-SMALL for tan, asinh, sin, atanh, sinh, atan, exp, sqrt. Values in D-SMALL. Outside: the "
+         "same relations for tmerc/lcc/laea/omerc/somerc (kernels with 50-100 float operations: relational proofs "
+         "do not finish), and every relation between constructors (utm vs tmerc, lat_ts vs k_0, 1SP vs 2SP lcc, "
+         "semi-major-axis scaling, merc(sphere) vs webmerc), which live behind text instantiation and libm.",
+    technique="Kani/CBMC bounded model checking (SAT): relational two-run harnesses with uninterpreted libm",
     design="4 (C13)")
 
 NA = {
